@@ -28,7 +28,7 @@ func newReduceMin() ops.Operator {
 // Init initializes the reduceMin operator.
 func (r *ReduceMin) Init(n *onnx.NodeProto) error {
 	attributes := n.GetAttribute()
-	if len(attributes) == 0 || len(attributes) > MaxReduceMinAttributes {
+	if len(attributes) > MaxReduceMinAttributes {
 		return ops.ErrInvalidOptionalAttributeCount(MinReduceMinAttributes, MaxReduceMinAttributes, len(attributes), r)
 	}
 
@@ -58,6 +58,13 @@ func (r *ReduceMin) Apply(inputs []tensor.Tensor) ([]tensor.Tensor, error) {
 	axes := make([]int, len(r.axes))
 	for i, axis := range r.axes {
 		axes[i] = ops.ConvertNegativeAxis(axis, len(input.Shape()))
+	}
+
+	// Without axes, all dimensions are reduced.
+	if len(axes) == 0 {
+		for axis := range input.Shape() {
+			axes = append(axes, axis)
+		}
 	}
 
 	out, err := input.Min(axes...)
